@@ -234,3 +234,65 @@ func c12SameInstanceSequences(rep *vk.Report, idx int) {
 		rep.Distinct(fmt.Sprintf("seq|%v|%d", cs, n))
 	}
 }
+
+// c12ZeroRetriesAndAbortOnly: two corners of the classifier that a re-invocation count cannot show.
+// (1) A retry policy that allows no retries still classifies: a failure fires its OnFailure (and OnRetriesExceeded) and is
+// reported as a failed execution carrying ExceededError; a success fires OnSuccess.
+// (2) An abort condition is not a handle condition: with only AbortOnResult(7)/AbortOnErrors(E1) configured, the outcome
+// (7,nil) is a success of the policy (no conditions configured and no error) - no OnFailure, no OnAbort, executor success.
+func c12ZeroRetriesAndAbortOnly(rep *vk.Report, idx int) {
+	r := vk.Rng(rep.Seed, "C12z", idx)
+	outs := c12Outcomes()
+	o := outs[r.IntN(len(outs))]
+	// (1)
+	handles := []condSet{{}, {"E"}, {"R"}, {"I"}, {"Tv"}, {"E", "R"}}
+	cs := handles[r.IntN(len(handles))]
+	var polSucc, polFail, polExc, execSucc, execFail int
+	rb := retrypolicy.Builder[int]()
+	if r.IntN(2) == 0 {
+		rb.WithMaxRetries(0)
+	} else {
+		rb.WithMaxAttempts(1)
+	}
+	applyHandle[retrypolicy.RetryPolicyBuilder[int]](rb, cs)
+	rb.OnSuccess(func(failsafe.ExecutionEvent[int]) { polSucc++ }).OnFailure(func(failsafe.ExecutionEvent[int]) { polFail++ }).OnRetriesExceeded(func(failsafe.ExecutionEvent[int]) { polExc++ })
+	calls := 0
+	_, err := failsafe.NewExecutor[int](rb.Build()).
+		OnSuccess(func(failsafe.ExecutionDoneEvent[int]) { execSucc++ }).OnFailure(func(failsafe.ExecutionDoneEvent[int]) { execFail++ }).
+		Get(func() (int, error) { calls++; return o.Res, o.Err })
+	rep.Eval()
+	want := cs.isFailure(o.Res, o.Err)
+	var xe retrypolicy.ExceededError
+	gotExceeded := errors.As(err, &xe)
+	if calls != 1 || want != (polFail == 1) || want == (polSucc == 1) || want != (polExc == 1) || want != (execFail == 1) || want == (execSucc == 1) || want != gotExceeded {
+		rep.Violate(idx, "C12/zero-retry-policy-does-not-classify", fmt.Sprintf("retry policy allowing no retries, handle conditions %v, outcome %s: rule says failure=%v; policy OnFailure=%d OnSuccess=%d OnRetriesExceeded=%d, executor OnFailure=%d OnSuccess=%d, returned error %v (ExceededError=%v), invocations=%d", []string(cs), o.Name, want, polFail, polSucc, polExc, execFail, execSucc, err, gotExceeded, calls), map[string]any{"conditions": cs, "outcome": o.Name})
+		return
+	}
+	// (2)
+	var pf, pa, ps, es, ef int
+	ab := retrypolicy.Builder[int]().WithMaxRetries(2)
+	kind := r.IntN(3)
+	switch kind {
+	case 0:
+		ab.AbortOnResult(7)
+	case 1:
+		ab.AbortOnResult(0)
+	default:
+		ab.AbortOnErrors(errE1).AbortOnResult(7)
+	}
+	ab.OnFailure(func(failsafe.ExecutionEvent[int]) { pf++ }).OnAbort(func(failsafe.ExecutionEvent[int]) { pa++ }).OnSuccess(func(failsafe.ExecutionEvent[int]) { ps++ })
+	res := []int{7, 0, 5}[r.IntN(3)]
+	calls = 0
+	got, err2 := failsafe.NewExecutor[int](ab.Build()).
+		OnSuccess(func(failsafe.ExecutionDoneEvent[int]) { es++ }).OnFailure(func(failsafe.ExecutionDoneEvent[int]) { ef++ }).
+		Get(func() (int, error) { calls++; return res, nil })
+	rep.Eval()
+	if calls != 1 || got != res || err2 != nil || pf != 0 || pa != 0 || ps != 1 || es != 1 || ef != 0 {
+		rep.Violate(idx, "C12/abort-condition-treated-as-handle-condition", fmt.Sprintf("retry policy with only abort conditions (variant %d), outcome (%d,nil) - no handle conditions and no error, a success: invocations=%d returned (%d,%v) policy OnFailure=%d OnAbort=%d OnSuccess=%d executor OnSuccess=%d OnFailure=%d", kind, res, calls, got, err2, pf, pa, ps, es, ef), map[string]any{"abort_variant": kind, "result": res})
+		return
+	}
+	rep.Count("zero_retry_and_abort_only_cases", 1)
+	if idx%3 == 0 {
+		rep.Distinct(fmt.Sprintf("zr|%v|%s|%d|%d", cs, o.Name, kind, res))
+	}
+}
